@@ -222,6 +222,7 @@ def check_state(acc, pendulum, z, inst, units=UNITS, ws=0, rs=None, tag=None):
             acc.mismatch("route", "parsed-value-is-another-instant", {"kind": "state", "z": z, "inst": inst, "unit": "day", "which": "start", "route": rname, "ws": ws},
                          [obs.fields(x), obs.offset_s(x)], [ref_f, "same instant"])
     rs = [r for r in rs if not r[0].endswith("/DIFFERENT-VALUE")]
+    firstpass = {}
     for unit in units:
         kx = unit_key(ref_f, unit, ws)
         for which in ("start", "end"):
@@ -284,6 +285,8 @@ def check_state(acc, pendulum, z, inst, units=UNITS, ws=0, rs=None, tag=None):
                     acc.mismatch(sub, f"{unit}/not-idempotent", case,
                                  s2 if s2 != "ok" else obs.obs_key(r2), obs.obs_key(r), kf=kf2)
                 results.append((x, r))
+                if rs and x is rs[0][1] and r is not None:
+                    firstpass[(unit, which)] = (obs.fields(r), obs.offset_s(r))
             # route independence: one result for one (instant, zone)
             vals = {(obs.fields(r), obs.offset_s(r)) for _, r in results if r is not None}
             if len(vals) > 1 or (vals and any(r is None for _, r in results)):
@@ -297,6 +300,25 @@ def check_state(acc, pendulum, z, inst, units=UNITS, ws=0, rs=None, tag=None):
                 acc.mismatch(sub, f"{unit}/route-dependent",
                              {"kind": "state", "z": z, "inst": inst, "unit": unit, "which": which, "route": "*", "ws": ws},
                              sorted(str(v) for v in vals), "one result for one (instant, zone)", kf=kf)
+    _check_reuse(acc, rs, firstpass, z, inst, ws)
+
+
+def _check_reuse(acc, rs, firstpass, z, inst, ws):
+    """The receiver object of the first route is asked AGAIN, from the largest unit down (each call now rewrites fewer fields
+    than the one before it on the same object): the answers of the first pass."""
+    if not rs:
+        return
+    x = rs[0][1]
+    for (unit, which), want in sorted(firstpass.items(), key=lambda kv: -UNITS.index(kv[0][0]) if kv[0][0] in UNITS else 0):
+        if unit == "week":
+            continue
+        status, r = _apply(x, which, unit)
+        acc.c["evaluations"] += 1
+        acc.c["transitions"] += 1
+        got = (obs.fields(r), obs.offset_s(r)) if status == "ok" and r is not None else status
+        if got != want:
+            acc.mismatch(f"{which}_of", f"{unit}/receiver-reused", {"kind": "state", "z": z, "inst": inst, "unit": unit, "which": which,
+                                                                   "route": rs[0][0], "ws": ws, "reuse": True}, got, want)
 
 
 def check_date(acc, pendulum, n, ws):
